@@ -141,8 +141,9 @@ def gen_cases(rnd, tier):
         lits.append(("hdr", obs_hdr(rand_hdr(rnd, valid=rnd.random() < 0.85))))
     lens = [0, 1, 243, 244, 245, 487, 488, 489, 732, 976]
     lens += [rnd.randint(0, 3000) for _ in range(25 if tier == "quick" else 150)]
+    lens += [244 * 256 + 1]      # block numbers that need the second byte of the block-number field
     if tier == "thorough":
-        lens += [244 * 255, 244 * 256 + 1, 244 * 1000, 20000, 244 * 4000 + 7]
+        lens += [244 * 255, 244 * 1000, 20000, 244 * 4000 + 7]
     for n in lens:
         lits.append(("msg", obs_msg(rand_hdr(rnd), body_of(n, rnd))))
     lits.append(("msg", obs_msg(rand_hdr(rnd, valid=False), b"abc")))
@@ -252,7 +253,7 @@ def run(tier, replay=None):
     cov["distinct_nontrivial"] = len({hashlib.sha256(l[1].encode()).hexdigest() for l in lits})
     cov["rule"] = ("cases: CHdr = header fields (in range, boundary, out of range) through encode/decode; CMsg = (header, body) through SecsIMessage "
                    "splitting and SecsIBlock.encode for body lengths {0,1,243,244,245,487,488,489,732,976, random"
-                   + (", 62220, 62465, 244000, 976007" if tier == "thorough" else "") + "}; CDec = every byte position of encoded blocks replaced by "
+                   + ", 62465" + (", 62220, 244000, 976007" if tier == "thorough" else "") + "}; CDec = every byte position of encoded blocks replaced by "
                    "several values (and left unchanged) through SecsIBlock.decode; CReasm = blocks of 1-4 messages with distinct system bytes interleaved at random "
                    "through Protocol._add_message_block; every case is distinct by construction (hash of the literal) and non-trivial (it exercises an encoder/decoder)")
     cov["correspondence"] = {k: v for k, v in stats.items() if k != "eval_errors"}
